@@ -705,7 +705,15 @@ def run_differential(prop, tier, seed, replay=None):
         prop._outdir = os.path.join(wd, "out")
         for c in batch:
             il, ml = impl.get(c.id, ["R missing"]), model.get(c.id, ["R model-missing"])
-            out[c.id] = (il, ml, prop.compare(c, il, ml), prop.oracle(c, il))
+            if sub == "main":
+                out[c.id] = (il, ml, prop.compare(c, il, ml), prop.oracle(c, il))
+            else:
+                # shrink candidates may lack lines a judge relies on (a query, an option): such a candidate is simply not a
+                # smaller failing case
+                try:
+                    out[c.id] = (il, ml, prop.compare(c, il, ml), prop.oracle(c, il))
+                except Exception:               # noqa
+                    out[c.id] = (il, ml, None, None)
         return out
 
     rep.coverage["phase_s"]["build+generate"] = round(time.time() - rep.t0, 1)
